@@ -72,6 +72,8 @@ def judge(case, ans, ref_out):
     equal those of the same program without contexts on the inputs that were accepted."""
     if "panic" in ans or "error" in ans:
         return ["implementation failed: " + json.dumps(ans)[:300]]
+    if not X.runs_to_quiescence(case):
+        return []                      # the schedule stops with work left (e.g. a shrinking candidate): nothing to judge
     got = X.per_stream([tuple(e) for st in ans["steps"] for e in st["out"]])
     want = X.per_stream([tuple(e) for per in ref_out["out"] for e in per])
     fails = []
